@@ -582,8 +582,19 @@ Record observed := {
   o_fvar_axes : list N;
   o_fvar_inst : list (N * option N);   (* subfamily id, postscript id *)
   o_stat_axes : option (list N);       (* None: the STAT table came from FEA *)
-  o_adj : list N; o_size : list N; o_elided : option N   (* ids as the font refers to FEA names *)
+  o_adj : list N; o_size : list N; o_elided : option N;  (* ids as the font refers to FEA names *)
+  (* EVERY feature record with parameters: (size feature?, positions of its name groups in
+     o_size / o_adj, the ids that record holds) *)
+  o_records : list (bool * list nat * list N)
 }.
+
+(* every feature record carries its own clone of its tag's parameters (compile_ctx.rs build());
+   remap_name_ids visits every record, so a record's ids are its tag's ids *)
+Definition record_ids (refs : list N) (pos : list nat) : list N := map (fun p => nth p refs 0xFFFF) pos.
+
+Definition records_agree (r : fea_refs) (recs : list (bool * list nat * list N)) : bool :=
+  forallb (fun e : bool * list nat * list N => let '(sz, pos, ids) := e in
+                    list_n_eqb (record_ids (if sz then r_size r else r_adj r) pos) ids) recs.
 
 Definition inst_ids_eqb (m : list (option N * option (option N))) (o : list (N * option N)) : bool :=
   (fix go m o := match m, o with
@@ -621,6 +632,7 @@ Definition font_agrees_with (nm : names) (rp : rmap) (axes : list axis) (insts :
          end
       && list_n_eqb (r_adj r') (o_adj o) && list_n_eqb (r_size r') (o_size o)
       && opt_n_eqb (r_elided r') (o_elided o)
+      && records_agree r' (o_records o)
   end.
 
 (* the result no longer depends on an iteration order: one evaluation *)
